@@ -237,6 +237,56 @@ pub fn judge(st: &mut Stats, rows: &Rows, cols: usize, companion: &Rows, ccols: 
             }
         }
     }
+    // elementary row and column operations against their definitions on bit rows (every ordered pair of indices)
+    for a in 0..r {
+        for b in 0..r {
+            if a == b {
+                continue;
+            }
+            let got = guarded(|| {
+                let (mut x, mut y) = (m.clone(), m.clone());
+                x.row_add(a, b);
+                y.row_swap(a, b);
+                (from_mat(&x).0, from_mat(&y).0)
+            });
+            let mut wa = rows.clone();
+            wa[b] ^= rows[a];
+            let mut ws = rows.clone();
+            ws.swap(a, b);
+            match got {
+                Err(p) => st.violation(Violation { sig: "row-ops|panic".into(), detail: p, witness: wit(rows, cols, "row_ops", false, 0) }),
+                Ok((ga, gs)) => {
+                    if ga != wa || gs != ws {
+                        st.violation(Violation { sig: format!("row-ops|wrong|{}", if ga != wa { "row_add" } else { "row_swap" }), detail: format!("rows {} and {}", a, b), witness: wit(rows, cols, "row_ops", false, 0) });
+                    }
+                }
+            }
+        }
+    }
+    for a in 0..cols {
+        for b in 0..cols {
+            if a == b {
+                continue;
+            }
+            let got = guarded(|| {
+                let (mut x, mut y) = (m.clone(), m.clone());
+                x.col_add(a, b);
+                y.col_swap(a, b);
+                (from_mat(&x).0, from_mat(&y).0)
+            });
+            // column a added to column b: bit b of every row ^= bit a; swap: exchange bits a and b
+            let wa: Rows = rows.iter().map(|&x| x ^ (((x >> a) & 1) << b)).collect();
+            let ws: Rows = rows.iter().map(|&x| { let (ba, bb) = ((x >> a) & 1, (x >> b) & 1); (x & !(1 << a) & !(1 << b)) | (ba << b) | (bb << a) }).collect();
+            match got {
+                Err(p) => st.violation(Violation { sig: "col-ops|panic".into(), detail: p, witness: wit(rows, cols, "col_ops", false, 0) }),
+                Ok((ga, gs)) => {
+                    if ga != wa || gs != ws {
+                        st.violation(Violation { sig: format!("col-ops|wrong|{}", if ga != wa { "col_add" } else { "col_swap" }), detail: format!("columns {} and {}", a, b), witness: wit(rows, cols, "col_ops", false, 0) });
+                    }
+                }
+            }
+        }
+    }
     // multiplication: m^T (cols x r) * x (r x ccols), and (AB)^T = B^T A^T
     match guarded(|| &t * &x) {
         Err(p) => st.violation(Violation { sig: "mul|panic".into(), detail: p, witness: wit(rows, cols, "mul", false, 0) }),
